@@ -317,6 +317,7 @@ for _a, _c in (("cells", "_parts"), ("parts", "_cells")):
     _k.__module__ = __name__
     globals()[_k.__name__] = _k
     RESET_CONTRACTS.append(_k)
+CURVE_RESETS = RESET_CONTRACTS[-2:]
 
 CONTRACTS = [OctreeCentroids, BlockModelCentroids, Grid2DCentroids] + RESET_CONTRACTS
 
